@@ -284,6 +284,8 @@ class ThreadSched(Sched):
 
     def thread_wait(self, cond, timeout, site):
         rec = self.threads[self.current]
+        if rec.kill:
+            raise LeftWaiting(site)     # being unwound: never park again
         self.nwaits += 1
         self.waits.append(site)
         if self.nwaits > self.MAX_WAITS:
